@@ -12,6 +12,15 @@ OP_NOTE = ("Trusted: TLC; the harness store (harness/modelstore) as an implement
            "implementation traces are TLC-simulated behaviours plus seeded random histories, not all histories.")
 
 CLAIMS = {
+    "C19": dict(level="model_checking", ref="DESIGN.md §3 C19",
+                text="spec/Discovery.tla: configuration = five provider options x three storage capabilities x issuer shape x endpoint table x router; "
+                     "Advertised(cfg) / Accepted(cfg) transcribe the discovery builders and the two grant dispatchers and TLC checks that they agree in every "
+                     "configuration; each configuration is built for real, the document fetched, every advertised URL checked to be issuer-relative and served, "
+                     "every token-endpoint grant probed, a code flow run through the ADVERTISED endpoints (issuer of the ID token, S256 and plain PKCE), and a "
+                     "signed request object sent when support is advertised; plus the issuer-validation table of provider construction (11 issuer forms x "
+                     "insecure opt-in) and the issuer comparison of client.Discover (6 document issuers). The monitor DiscoveryTrace judges the observations.",
+                technique="TLA+ decision-table spec model-checked with TLC; every configuration executed on both routers; observations judged by the TLA+ monitor",
+                note="Bounds: DiscoveryDesign_*.cfg."),
     "C17": dict(level="model_checking", ref="DESIGN.md §3 C17",
                 text="spec/RP.tla (+ RPDesign, RPMBT, RPTrace): state = per browser the attempt whose state / PKCE verifier the RP's signed cookies hold; events "
                      "StartLogin(b) and Callback(b, attempt named by the state parameter, form of the state parameter, cookie tampering) carry their outcome. "
